@@ -216,6 +216,12 @@ STATIC = [
          clause="the unchecked element read behind array.index / iteration is reached only with index < len (the precondition of unsafe_get is proved at its 8 call sites; the element TYPE parameter chosen per representation is dropped by the rewrite and not checked); any other index is None"),
     dict(engine="verus", unit="apipush", function="AsyncPushable::async_status_push", name="C06/api/async_status_push", source="vm/src/api/mod.rs::AsyncPushable::async_status_push",
          clause="a failing primitive always ends as Status::Error with exactly its message pushed; producing the error value cannot itself fail (limit-ignoring allocation, no unwrap of a fallible push)"),
+    dict(engine="verus", unit="apipush", function="AsyncPushable::async_push(sync)", name="C06/api/sync_async_push", source="vm/src/api/mod.rs::<T: Pushable as AsyncPushable>::async_push",
+         clause="the frame of a synchronous primitive is unlocked whether or not its result could be pushed, and the outcome of the push is what is reported"),
+    dict(engine="verus", unit="apipush", function="RuntimeResult::vm_push", name="C06/api/RuntimeResult_vm_push", source="vm/src/api/mod.rs::<RuntimeResult as Pushable>::vm_push",
+         clause="a primitive answering RuntimeResult::Panic yields Err (an error value for the host), never a pushed value, stack untouched"),
+    dict(engine="verus", unit="apipush", function="IO::vm_push", name="C06/api/IO_vm_push", source="vm/src/api/mod.rs::<IO as Pushable>::vm_push",
+         clause="an IO::Exception yields Err, stack untouched"),
     dict(engine="verus", unit="io", function="write_slice_file", name="C06/io/write_slice_file", source="src/std_lib/io.rs::write_slice_file",
          clause="std.io write_slice: for every (start, end) the slice expression buf[start..end] is in bounds or the call is refused with an error value"),
     dict(engine="verus", unit="io", function="read_file", name="C06/io/read_file", source="src/std_lib/io.rs::read_file",
